@@ -575,13 +575,17 @@ def r_gate(model, rep, tier, only=None):
     for s in sites:
         funcs.setdefault(s.fref.qname, s.fref)
     # a gate may also test a local that holds the version (``v = self.header.version_tuple; if v <= (0, 3)``): the terms see it
+    from ..known_funcs import KNOWN_FUNCS
     for fr in model.all_functions():
         if fr.qname in funcs:
             continue
-        if not any(isinstance(n, ast.Attribute) and n.attr == "version_tuple" for n in ast.walk(fr.node)):
+        if fr.qname not in GATE_TABLE and not any(isinstance(n, ast.Attribute) and n.attr == "version_tuple" for n in ast.walk(fr.node)):
             continue
         if any(_gated(ev) for ev in facts.fctx(model, fr).events):
             funcs[fr.qname] = fr
+    # a helper the rules do not know is analysed as part of its callers (its gated events are inlined there)
+    for q_ in [q_ for q_ in funcs if q_ not in KNOWN_FUNCS and q_ not in GATE_TABLE]:
+        del funcs[q_]
     for q in sorted(set(funcs) | set(GATE_TABLE)):
         if only is not None and q not in only:
             continue
